@@ -13,6 +13,7 @@ CHECKS = {
  "C05": ("proof", "contracts on the three from_obj overrides (four digest forms, size forms, payload forms) over the ghost file system, dependency digest read off the symbolically created nested envelope; bounded create on real files beside it", "hashes/getsize/open are assumed contracts; dependency given by PATH is re-parsed (C03) and covered by the bounded stand-in; one known finding (hex-like file name)", "DESIGN.md 3 C05"),
  "C06": ("proof", "contracts on the real encryption chain (SuitKMS.encrypt .. cmd_encrypt.encrypt_and_generate/generate_info) discharged for all plaintexts, key ids and digests; bounded CLI round trip with independent decryption beside it", "AES-GCM, os.urandom, hashes, cbor2.dumps are assumed contracts (validated differentially); plug-in loading (importlib) assumed to yield the shipped scripts", "DESIGN.md 3 C06"),
  "C10": ("proof", "contracts on the real CachePartition functions discharged for all erase-block sizes, lengths and contents; bounded stand-in through main() beside it", "relative to the assumed contract of cbor2.dumps and lemmas L-float, L-div; merge/from_payloads loops covered by the bounded stand-in", "DESIGN.md 3 C10"),
+ "C11": ("other", "P: payload_extract.main and one level of fill_cache_from_envelope_data for 0..2 (thorough: 3) integrated members with symbolic pattern outcomes, recursion by the function's own contract; B: hierarchies to depth 3 x pattern pairs through the CLI entry points", "members per level unrolled; user regexes are an uninterpreted predicate; cbor2 assumed", "DESIGN.md 3 C11"),
  "C12": ("proof", "record layout and merged-area data flow proved for all names, policies, addresses, sizes and 0..8 input records", "IntelHex (partial-map operations and HEX file encoding), uuid5 and SHA-256 are assumed contracts", "DESIGN.md 3 C12"),
  "C13": ("proof", "the three derivation sites have the same postcondition term UUID5(UUID5(DNS, vendor), class); role lookup and kconfig duplicate rejection proved over a modelled configuration", "uuid.uuid5 uninterpreted (assumed); BuildConfiguration file reading assumed; kconfig modelled for the three configurable roles", "DESIGN.md 3 C13"),
  "C14": ("proof", "published IV == nonce used == the single os.urandom(12) draw, per call; history lemma over the ghost set of used nonces", "freshness of os.urandom is the assumption the distinctness rests on", "DESIGN.md 3 C14"),
